@@ -1,4 +1,5 @@
 import MindsVerif.Lemmas.ErrLoc
+import MindsVerif.Lemmas.ErrSrc
 import MindsVerif.Lemmas.ErrSuggest
 import MindsVerif.Lemmas.ErrPrefix
 import MindsVerif.Lemmas.ErrDet
@@ -180,6 +181,52 @@ theorem C19_eof_caret_v (split : Bool) (toks : List Tok) (l : Tok) (hl : layoutO
           (shown.drop (t.index - shift)).take t.value.length = t.value) := by
   rw [C19_variant_agrees split toks none hnl (fun _ h => by cases h)]
   exact C19_eof_caret toks l hl hlast
+
+/-- **T19.1 for the repaired code, no hypothesis about newlines inside values** (repo 2c1674c +
+bd184d7).  The part-by-part `error_location` is the one-piece loop over the "virtual tokens"
+(`virt`: one per `'\n'`-separated part of a value, part `n` on line `lineno + n`), so under the
+position hypothesis on the virtual tokens the message is header, ≤ 2 context lines, the `>` line of
+the line on which the bad token STARTS and `'-'*(c+1) ++ '^'*len(first part)`; the first part of the
+bad value sits at `shown[c : c+len)`, and every part of every token on that line at its own offset. -/
+theorem C19_caret_split (toks : List Tok) (b : Tok) (hl : layoutOK (virt toks) = true) (hb : b ∈ toks) :
+    ∃ (ctx : List (List Char)) (shown : List Char) (shift c : Nat),
+      errorLocationV true toks (some b) = hdrUnknown :: (ctx ++ ['>' :: shown,
+          List.replicate (c + 1) '-' ++ List.replicate (headPart b).value.length '^']) ∧
+      ctx.length ≤ 2 ∧ c + shift = b.index ∧
+      (shown.drop c).take (headPart b).value.length = (headPart b).value ∧
+      (∀ t ∈ virt toks, t.lineno = b.lineno → shift ≤ t.index ∧
+          (shown.drop (t.index - shift)).take t.value.length = t.value) := by
+  rw [errorLocationV_true_eq]
+  exact C19_caret_partial (virt toks) (headPart b) hl (headPart_mem hb)
+
+/-- … and with the UNIFORM LEXER SEMANTICS of bd184d7 as the only hypothesis (`SrcChain src 0 toks`:
+every value is its source slice, `lineno = 1 +` newlines before `index`, tokens in text order without
+overlap — checked on every real token list of the stream, obligations `probe:value-is-source`,
+`probe:lineno-uniform`, `probe:layout-invariant`): the carets cover exactly the source characters of
+the bad token on the line where it starts. -/
+theorem C19_caret_uniform (src : List Char) (toks : List Tok) (b : Tok) (h : SrcChain src 0 toks)
+    (hb : b ∈ toks) :
+    ∃ (ctx : List (List Char)) (shown : List Char) (shift c : Nat),
+      errorLocationV true toks (some b) = hdrUnknown :: (ctx ++ ['>' :: shown,
+          List.replicate (c + 1) '-' ++ List.replicate (headPart b).value.length '^']) ∧
+      ctx.length ≤ 2 ∧ c + shift = b.index ∧
+      (shown.drop c).take (headPart b).value.length =
+        (src.drop b.index).take (headPart b).value.length := by
+  have hl : layoutOK (virt toks) = true := layout_of_src src toks 0 0 h (Nat.zero_le _)
+  obtain ⟨ctx, shown, shift, c, h1, h2, h3, h4, _⟩ := C19_caret_split toks b hl hb
+  exact ⟨ctx, shown, shift, c, h1, h2, h3, by rw [h4]; exact headPart_slice (srcTok_of_chain h hb)⟩
+
+/-- end of input, repaired code, uniform lexer semantics: one `^` one column past the shown last line -/
+theorem C19_eof_caret_uniform (src : List Char) (toks : List Tok) (l : Tok) (h : SrcChain src 0 toks)
+    (hlast : (virt toks).getLast? = some l) :
+    ∃ (ctx : List (List Char)) (shown : List Char) (shift : Nat),
+      errorLocationV true toks none = hdrEof :: (ctx ++ ['>' :: shown,
+          List.replicate (shown.length + 1) '-' ++ ['^']]) ∧
+      ctx.length ≤ 2 ∧ shift + shown.length = l.index + l.value.length := by
+  have hl : layoutOK (virt toks) = true := layout_of_src src toks 0 0 h (Nat.zero_le _)
+  rw [errorLocationV_true_eq]
+  obtain ⟨ctx, shown, shift, h1, h2, h3, _⟩ := C19_eof_caret (virt toks) l hl hlast
+  exact ⟨ctx, shown, shift, h1, h2, h3⟩
 
 /-! ### T19.3 suggestions -/
 
@@ -475,8 +522,15 @@ example : (errorLocationV true
       [tk 0 "select" 1 0, tk 2 "'a\nb'" 1 7, tk 3 "from" 2 13, tk 3 "from" 2 18]
       (some (tk 3 "from" 2 18))).map String.ofList =
     ["Syntax error, unknown input:", ">select 'a", "> b' from from", "----------^^^^"] := by decide
-/-- the driver follows the variant of the live code -/
-example : ErrLex.splitValues = false ∨ ErrLex.splitValues = true := by decide
+/-- pins of the repaired variant (a regression of either breaks this obligation, and the probe then finds
+the concrete input): `error_location` places a value part by part (2c1674c) and the lexer numbers every
+token by the line on which it starts (bd184d7) — the hypotheses of `C19_caret_uniform` -/
+example : ErrLex.splitValues = true ∧ ErrLex.uniformLineno = true := by decide
+/-- `select a IS\nNOT null null`: the keyword split over two lines, the error on the second line -/
+example : (errorLocationV true
+      [tk 0 "select" 1 0, tk 1 "a" 1 7, tk 2 "IS\nNOT" 1 9, tk 3 "null" 2 16, tk 3 "null" 2 21]
+      (some (tk 3 "null" 2 21))).map String.ofList =
+    ["Syntax error, unknown input:", ">select a IS", "> NOT null null", "-----------^^^^"] := by decide
 
 /-! ### non-vacuity -/
 example : layoutOK [tk 0 "select" 1 2, tk 1 "a" 2 13, tk 1 "b" 2 15, tk 1 "c" 2 17] = true := by decide
